@@ -30,6 +30,10 @@ TEXTS = [
     '\nstarts with newline',
     'back\\slash and , comma',
     'first\n   \nthird after whitespace-only line',
+    'note\n\n',
+    '\n\n',
+    'a\n \n',
+    'two lines\n    indented continuation',
 ]
 
 BASE_TREES = [
